@@ -131,4 +131,12 @@ claim("C01", "other",
       "control-skeleton agreement of sibling walks + partition / sort-before-search / routing rules over the clang AST", "DESIGN.md §8.7")
 NA["C04"] = "bound on a floating-point truncation error over all positions/heights/orders: nothing about it is visible in the shape of the code (accumulate clause is under C08, code conventions under C11)."
 NA["C05"] = "bound on a floating-point interpolation error; its batching clause is the accumulate/recompute rule decided under C08."
-NA["C07"] = "run-time data-structure invariant established by loops over run-time data for every occupancy pattern; no separable structural clause."
+claim("C07", "other",
+      "The invariant itself (sorted, disjoint, ancestor-closed for every occupancy pattern) is established by loops over run-time data and is NOT decided. Decided are five structural necessary conditions of the code that builds it (tree constructor, rebuild(), both group constructors, the particle sorter; a target/source tree is two such trees): "
+      "(1) header = content: a group's recorded first / last index and count come from the first / last element and the length of the very sequence its cells are filled from, cell i <- element i over [0,n); leaf records are cut exactly where the particle's key changes, record c <- leaf c, offset = first particle; "
+      "(2) flush discipline, a typestate analysis (empty / holding un-emitted cells / emitted-not-cleared) of every index buffer: nothing appended after an emit without clear (no cell in two groups), no possibly-empty buffer emitted (no empty group), no double emit, nothing un-emitted when cleared or at end of scope (no cell lost); "
+      "(3) block bound: a cell group is emitted as soon as its size equals the quantity particle groups are cut by, a member set from the constructor's block-size argument; the sorter's partition is (ceil(n/S) groups, group g = [g*S, min((g+1)*S, n)), particle ranges contiguous from 0), compared as sympy normal forms; "
+      "(4) ancestor closure: what is appended at level L is the parent of cell i of each group of level L+1 in order, i over [0, nbCells), de-duplicated against the value appended last; levels H-2..0 each once; the leaf level has one cell group per particle group with that group's leaf indices; "
+      "(5) sorted leaves: the sort comparator's key is the member filled from getIndexFromPosition and the key leaves are cut on, the cut comes after the sort.",
+      "Trusted: clang 14 + tbfscan, origin descriptors / behavioural atoms, sympy for the partition arithmetic. Unrecognised restructuring of these functions is exit 2, not a verdict.",
+      "typestate (buffer flush discipline) + header/content, block-bound, closure and sort-key agreement rules over the clang AST", "DESIGN.md §8.10")
